@@ -337,6 +337,12 @@ def support_code(case):
     if sup.get("serde_reexport"):
         out.append("pub mod %s { pub use ::serde as %s; }\n" % tuple(sup["serde_reexport"]))
     for en, vals in sorted((sup.get("extern_enums") or {}).items()):
+        if sup.get("extern_enums_strict"):
+            # the consumer's own choice: a plain serde enum that knows exactly the schema's values (like the repository's
+            # tests/extern_enums.rs) - observably different from a generated enum, which has the `Other(String)` catch-all
+            out.append("#[derive(serde::Serialize, serde::Deserialize, Debug, Clone, PartialEq, Eq)]\n#[allow(non_camel_case_types)]\npub enum %s { %s }\n"
+                       % (en, " ".join("#[serde(rename = %s)] V%d," % (json.dumps(v), i) for i, v in enumerate(vals))))
+            continue
         # a hand-written enum with the reference wire behaviour
         out.append("#[derive(Debug, Clone, PartialEq, Eq)]\npub enum %s { %s Other(String) }\n" % (en, " ".join("V%d," % i for i in range(len(vals)))))
         out.append("impl serde::Serialize for %s { fn serialize<S: serde::Serializer>(&self, s: S) -> Result<S::Ok, S::Error> { s.serialize_str(match self { %s %s::Other(o) => o.as_str() }) } }\n"
